@@ -5,7 +5,7 @@ import random
 import core
 import decsuite as ds
 
-THEOREMS = ["C14.c14_warnings_once", "C14.prettyGo_info", "C14.c14_decoder_hex", "C14.c14_accepted_hex_is_input", "C14.decoder_classes", "C14.streamBytes_eq", "C14.decoder_shaped", "C14.c14_shape_tables", "C14.c14_decoder_total", "runWalker_gd", "decode_gd", "decodeCommand_gd",
+THEOREMS = ["C14.c14_rows_are_blocks", "C14.c14_blocks_partition", "C14.c14_decoder_rows", "C14.run_inRun", "C14.c14_warnings_once", "C14.prettyGo_info", "C14.c14_decoder_hex", "C14.c14_accepted_hex_is_input", "C14.decoder_classes", "C14.streamBytes_eq", "C14.decoder_shaped", "C14.c14_shape_tables", "C14.c14_decoder_total", "runWalker_gd", "decode_gd", "decodeCommand_gd",
             "decodeResponse_gd", "decodeStream_gm", "C14.c14_total_b", "C14.shaped_of_b", "C14.c14_hex", "C14.c14_hex_top", "C14.c14_row_columns", "C14.c14_total", "C14.c14_total_top",
             "C14.foldBytes_hex", "C14.foldElems_hex", "C14.c14_events_rows"]
 
